@@ -238,6 +238,8 @@ func (fc *FnCtx) trModel(st *State, call *ast.CallExpr, fn *types.Func, recvExpr
 				st.addAssume("(= " + lines.T + " (" + sf.smtName + " " + src.T + "))")
 			}
 		}
+		// bufio.ScanLines never yields a line that contains a newline
+		st.addAssume("(forall ((i Int)) (! (nonl (sat_ " + lines.T + " i)) :pattern ((sat_ " + lines.T + " i))))")
 		st.scans = append(st.scans, sc.Rec)
 		return []Val{sc}, true
 	}
